@@ -128,11 +128,11 @@ def conditions(tier):
     # (A) every ordering of the LaTeX-active ASCII characters (+ representatives) up to the bound
     for rs in ('defaults', 'unicode-xml'):
         for sc in SCHEMES:
-            for n in (1, 2):
+            for n in ((1, 2) if (not quick or sc in ('braces', 'braces-after-macro')) else (1,)):
                 conds.append(Cond('active_%s_%s_n%d' % (rs.replace('-', ''), sc.replace('-', ''), n), 't: str',
                                   set_pre(n, ACTIVE + REPS), 'body_inert(t, %r, %r, %r)' % (rs, sc, 'keep'),
                                   timeout=T, smoke=SM, twin=False))
-            if not quick or (rs, sc) in (('defaults', 'braces'),):
+            if not quick:
                 for c0 in ACTIVE:
                     pre = ['len(t) == 3', 't[0] == chr(%d)' % ord(c0)] + \
                         ['any(t[%d] == c for c in %r)' % (i, ACTIVE + 'a ') for i in (1, 2)]
@@ -145,9 +145,7 @@ def conditions(tier):
         cuts = [keys[(len(keys) * k) // n] for k in range(1, n)]
         return list(zip([0] + cuts, cuts + [0x110000]))
     if quick:
-        wild = [('defaults', 'braces', 'replace', 'alone', '?'), ('defaults', 'braces', 'replace', 'a_r', '?a'),
-                ('defaults', 'braces-after-macro', 'ignore', 'bs_l', '\\?'), ('unicode-xml', 'braces', 'replace', 'alone', '?'),
-                ('unicode-xml', 'braces-after-macro', 'replace', 'br', '{?}')]
+        wild = [('defaults', 'braces', 'replace', 'alone', '?'), ('unicode-xml', 'braces-after-macro', 'replace', 'br', '{?}')]
     else:
         wild = [(rs, sc, pol, tag, sk) for rs in ('defaults', 'unicode-xml') for pol in ('replace', 'ignore', 'keep')
                 for sc in ('braces', 'braces-after-macro') for tag, sk in ([('alone', '?')] + ([('a_r', '?a'), ('bs_l', '\\?'), ('br', '{?}'), ('sp', '? x'),
@@ -181,9 +179,9 @@ META = dict(
     functions=['UnicodeToLatexEncoder.unicode_to_latex with conversion_rules "defaults" and "unicode-xml" (tables read at run '
                'time, looked up through BisectMap)', '_apply_protection_*', '_do_unknown_char_*',
                'LatexWalker strict parse of the output under the default context'],
-    bounds=dict(quick='every string of length <= 2 over the ten LaTeX-active ASCII characters plus {a, space, newline, [} for both '
-                      'tables x 5 protection schemes, length 3 for 2 table/scheme pairs; one wildcard character over all Unicode '
-                      '(control, combining, astral, unassigned included), alone and next to pinned ASCII neighbours, both tables, '
+    bounds=dict(quick='every string of length 1 over the ten LaTeX-active ASCII characters plus {a, space, newline, [} for both '
+                      'tables x 5 protection schemes, length 2 for 2 schemes; one wildcard character over all Unicode '
+                      '(control, combining, astral, unassigned included), alone (default table) and inside braces (unicode-xml), '
                       'policies replace and ignore; unihex and fail (exactness of the ValueError) on 5 code-point ranges; the module-level '
                       'helper after a call with another policy',
                 thorough='length 3 for all 10 table/scheme pairs; wildcard under 4 policies x 2 schemes with 6 neighbour skeletons'),
